@@ -44,6 +44,7 @@ def build_inventory(repo: Repo) -> t.Dict[str, t.Any]:
         "callers": _callers(repo),
         "classes": sorted(repo.classes),
         "nparams": {q: len(f.params) for q, f in repo.funcs.items()},
+        "params": {q: list(f.params) for q, f in repo.funcs.items()},
         "funcs": sorted(repo.funcs),
         "consts": {m.name: sorted(m.consts) for m in repo.modules.values()},
         "class_consts": {c.qual: sorted(c.class_consts) for c in repo.classes.values()},
@@ -215,7 +216,9 @@ class Normalizer:
         inv_classes = set(self.inventory.get("classes", []))
         repo.new_classes = {q for q in repo.classes if inv_classes and q not in inv_classes}  # type: ignore[attr-defined]
         self.undo_renames()
+        self.undo_param_renames()
         self.new_funcs = {q: f for q, f in repo.funcs.items() if q not in self.inv_funcs}
+        self.unproperty()
         for f in list(repo.funcs.values()):
             self._replace_node(f, self.fold_new_constants(f))
         for f in list(repo.funcs.values()):
@@ -301,6 +304,76 @@ class Normalizer:
                 f.cls.methods.pop(nq.rsplit(".", 1)[-1], None)
                 f.cls.methods[f.name] = f
             self.log.setdefault("renamed", []).append(f"{nq} is the reference tree's {oq}")
+
+    # ------------------------------------------------------------------------------------------ N18
+    def unproperty(self) -> None:
+        """A read-only @property that is not in the inventory is a helper method spelled without parentheses:
+        `x.name` becomes `x.name()` in its module and the decorator is dropped, so that N1 can inline it."""
+        repo = self.repo
+        for q, f in list(self.new_funcs.items()):
+            if f.cls is None or [unparse(d) for d in f.node.decorator_list] != ["property"]:
+                continue
+            name = f.name
+            # the name must not be anything else in the package (field, other method, setter)
+            if sum(1 for g in repo.funcs.values() if g.name == name) != 1 or any(name in [fl.name for fl in c.fields()] for c in repo.classes.values()):
+                continue
+            stores = [n for m in repo.modules.values() for n in ast.walk(m.tree) if isinstance(n, ast.Attribute) and n.attr == name and isinstance(n.ctx, (ast.Store, ast.Del))]
+            if stores:
+                continue
+
+            class P(ast.NodeTransformer):
+                def visit_Call(self, node: ast.Call) -> ast.AST:
+                    node.args = [self.visit(a) for a in node.args]
+                    node.keywords = [self.visit(k) for k in node.keywords]
+                    if isinstance(node.func, ast.Attribute) and node.func.attr == name:
+                        node.func.value = self.visit(node.func.value)  # already a call of what the property returns
+                        node.func = ast.copy_location(ast.Call(func=node.func, args=[], keywords=[]), node.func)
+                    else:
+                        node.func = self.visit(node.func)
+                    return node
+
+                def visit_Attribute(self, node: ast.Attribute) -> ast.AST:
+                    self.generic_visit(node)
+                    if node.attr == name and isinstance(node.ctx, ast.Load):
+                        return ast.copy_location(ast.Call(func=node, args=[], keywords=[]), node)
+                    return node
+
+            for m in repo.modules.values():
+                P().visit(m.tree)
+                ast.fix_missing_locations(m.tree)
+            f.node.decorator_list = []
+            self.log.setdefault("inlined", []).append(f"property {q} read as a method call")
+
+    # ------------------------------------------------------------------------------------------ N17
+    def undo_param_renames(self) -> None:
+        """A private function of the inventory whose parameters were renamed (same count, same order) gets the reference
+        names back, in its body and in the keyword arguments of its call sites: private parameter names are not
+        interface, and the rules address arguments by the reference names."""
+        ref: t.Dict[str, t.List[str]] = self.inventory.get("params", {})
+        repo = self.repo
+        for q, f in list(repo.funcs.items()):
+            want = ref.get(q)
+            if want is None or not f.name.startswith("_") or f.name.startswith("__") or list(f.params) == want or len(f.params) != len(want):
+                continue
+            mapping = {c: w for c, w in zip(f.params, want) if c != w}
+            used = {n.id for n in ast.walk(f.node) if isinstance(n, ast.Name)} | {a.arg for a in ast.walk(f.node) if isinstance(a, ast.arg)}
+            if any(w in used and w not in mapping for w in mapping.values()) or f.node.args.vararg is not None or f.node.args.kwarg is not None:
+                continue  # a reference name is in use for something else: leave the function alone
+            # the same method name defined elsewhere with other parameter names: keyword call sites would be ambiguous
+            if sum(1 for g in repo.funcs.values() if g.name == f.name) > 1:
+                continue
+            for n in ast.walk(f.node):
+                if isinstance(n, ast.Name) and n.id in mapping:
+                    n.id = mapping[n.id]
+                elif isinstance(n, ast.arg) and n.arg in mapping:
+                    n.arg = mapping[n.arg]
+            for m in repo.modules.values():
+                for n in ast.walk(m.tree):
+                    if isinstance(n, ast.Call) and (isinstance(n.func, ast.Name) and n.func.id == f.name or isinstance(n.func, ast.Attribute) and n.func.attr == f.name):
+                        for kw in n.keywords:
+                            if kw.arg in mapping:
+                                kw.arg = mapping[kw.arg]
+            self.log.setdefault("renamed", []).append(f"parameters of {q}: {mapping}")
 
     def _replace_node(self, f: Func, new: t.Optional[FuncNode]) -> None:
         if new is None or new is f.node:
@@ -600,7 +673,7 @@ class Normalizer:
         prologue: t.List[ast.stmt] = []
         for p in params:
             v = given[p.arg]
-            if p.arg not in stored and _is_pure(v):
+            if p.arg not in stored and _is_pure(v) and (_is_pure_path(v) or isinstance(v, ast.Constant) or not any(isinstance(x, (ast.Slice, ast.Call)) for x in ast.walk(v))):
                 subst[p.arg] = v
                 del rename[p.arg]
             else:
@@ -934,6 +1007,7 @@ class Normalizer:
         """typing.cast(T, x) -> x;  reversed(range(a, b)) -> range(b - 1, a - 1, -1);  divmod(a, b)[0] -> a // b;  divmod(a, b)[1] -> a % b  (pure a, b)."""
         hit = [False]
         repo = self.repo
+        norm = self
 
         def class_of(name: str) -> t.Optional[Cls]:
             """The repository class of a local: annotated parameter, or a single definition `name = C(...)` / `name = C.unpack(...)`."""
@@ -954,6 +1028,20 @@ class Normalizer:
                 r = repo.resolve_name(fn0.id, f.mod)
                 if isinstance(r, Cls) and (fn0 is defs[0].value.func or "unpack" in r.methods):
                     return r
+            # a package function / method whose return annotation names a class of the package (Optional[...] allowed)
+            cal = norm._callee(f, defs[0].value, stored_names(f.node) | {a_.arg for a_ in _params(f.node)})
+            if cal is not None and cal[0].node.returns is not None:
+                ann = cal[0].node.returns
+                if isinstance(ann, ast.Constant) and isinstance(ann.value, str):
+                    try:
+                        ann = ast.parse(ann.value, mode="eval").body
+                    except SyntaxError:
+                        return None
+                if isinstance(ann, ast.Subscript) and unparse(ann.value).endswith("Optional"):
+                    ann = ann.slice
+                if isinstance(ann, ast.Name):
+                    r = repo.resolve_name(ann.id, cal[0].mod)
+                    return r if isinstance(r, Cls) else None
             return None
 
         class T(ast.NodeTransformer):
